@@ -85,8 +85,8 @@ CHECKS = {
    "Every field and byte of recorded provider responses (block, results, validators, parameters, transactions, proofs) is altered; an accepted response must have the same header-bound normal form as the original; inclusion proofs verify only for their own transaction and block. Multi-height histories run against one long-lived Core with responses of other heights relabelled, so stale caches show; times are compared exactly (sub-second alterations).",
    "Events in block results are excluded (code TODO #6210).",
    "DESIGN.md 4/C19"),
- "C20": ("exploration", "online reference-model monitor of the scheduler (H4 export)",
-   "Random and small-scope-exhaustive operation sequences on the main queue scheduler; contents and every scheduling step are checked against a straightforward reference model that follows the implementation's legal free choices.",
+ "C20": ("exploration", "online reference-model monitor of the scheduler and of the mutex-guarded main queue (H4 exports) + race detector on concurrent callers",
+   "Random and small-scope-exhaustive operation sequences on the main queue scheduler and, for every other sequence, on the production wrapper mainQueue (Add = forward+add, Schedule = reset+schedule); contents and every scheduling step are checked against a straightforward reference model that follows the implementation's legal free choices. Concurrent cases: several goroutines add/use transactions of disjoint senders on one shared mainQueue while another schedules passes, under the race detector in child processes; each worker compares its own slice of the pool with its sequential model after every operation, passes are checked for limit / duplicates / ascending sender order, and the quiescent content must equal the union of the models.",
    "Trusted: the reference model.",
    "DESIGN.md 4/C20"),
 }
